@@ -377,3 +377,227 @@ def rw_name_for_iter(toks, counts, name="it"):
         raise LostAnchor("no for loop found")
     _count(counts, "R1", n)
     return out
+
+
+def rw_atom_pattern_guard(toks, counts, shim="atom_of"):
+    """R5c: a match arm whose pattern is a tuple starting with `atom!("..")`
+            (atom!("X"), REST) [if COND] => ...
+    becomes (n_, REST) if n_ == atom_of("X") [&& (COND)] => ...   (a macro cannot stay in pattern position
+    once atom! is a function; the arm order and bodies are untouched)."""
+    n = 0
+    while True:
+        si = sig_idx(toks)
+        hit = None
+        for a in range(len(si) - 6):
+            if toks[si[a]].text == "(" and toks[si[a + 1]].text == "atom" and toks[si[a + 2]].text == "!" and toks[si[a + 3]].text == "(":
+                po = si[a]
+                pc = match_close(toks, po)
+                ao = si[a + 3]
+                ac = match_close(toks, ao)
+                nxt = next_sig(toks, ac + 1)
+                if toks[nxt].text != ",":
+                    continue
+                after = next_sig(toks, pc + 1)
+                # arm position: followed by `=>` or `if ... =>`
+                if toks[after].text == "if":
+                    # find `=>` at depth 0
+                    d = 0
+                    k = after + 1
+                    while k < len(toks):
+                        tk = toks[k]
+                        if tk.kind == "p":
+                            if tk.text in OPEN:
+                                d += 1
+                            elif tk.text in ")]}":
+                                d -= 1
+                        if d == 0 and tk.text == "=" and toks[k + 1].text == ">":
+                            break
+                        k += 1
+                    cond = text(toks[after + 1:k]).strip()
+                    lit = text(toks[ao + 1:ac]).strip()
+                    rest = text(toks[nxt + 1:pc]).strip()
+                    new = "(n_, %s) if n_ == %s(%s) && (%s) " % (rest, shim, lit, cond)
+                    hit = (po, k, new)
+                elif toks[after].text == "=" and toks[after + 1].text == ">":
+                    lit = text(toks[ao + 1:ac]).strip()
+                    rest = text(toks[nxt + 1:pc]).strip()
+                    new = "(n_, %s) if n_ == %s(%s) " % (rest, shim, lit)
+                    hit = (po, after, new)
+                else:
+                    continue
+                break
+        if not hit:
+            break
+        s, e, new = hit
+        toks = toks[:s] + relex(new) + toks[e:]
+        n += 1
+    if n == 0:
+        raise LostAnchor("no (atom!(..), ..) arm pattern found")
+    _count(counts, "R5", n)
+    return toks
+
+
+# ---------------------------------------------------------------- match-arm rewrites
+def _match_bodies(toks):
+    """(open, close) token indices of the braces of every `match EXPR { ... }` body"""
+    out = []
+    for i, t in enumerate(toks):
+        if t.kind == "id" and t.text == "match":
+            d = 0
+            k = i + 1
+            while k < len(toks):
+                tk = toks[k]
+                if tk.kind == "p":
+                    if tk.text in "([":
+                        d += 1
+                    elif tk.text in ")]":
+                        d -= 1
+                    elif tk.text == "{" and d == 0:
+                        break
+                k += 1
+            if k < len(toks):
+                out.append((k, match_close(toks, k)))
+    return out
+
+
+def _arms(toks, bo, bc):
+    """arms of the match body toks[bo..bc]: dicts with token index ranges pat=(a,b) guard=(a,b)|None body=(a,b) end (exclusive, incl. comma)"""
+    arms = []
+    i = next_sig(toks, bo + 1)
+    while i < bc:
+        a = i
+        d = 0
+        g = None
+        k = i
+        while k < bc:
+            tk = toks[k]
+            if tk.kind == "p":
+                if tk.text in OPEN:
+                    d += 1
+                elif tk.text in ")]}":
+                    d -= 1
+                elif d == 0 and tk.text == "=" and toks[k + 1].text == ">":
+                    break
+            if d == 0 and tk.kind == "id" and tk.text == "if" and g is None:
+                g = k
+            k += 1
+        if k >= bc:
+            break
+        pat = (a, g if g is not None else k)
+        guard = (g + 1, k) if g is not None else None
+        b = next_sig(toks, k + 2)
+        if toks[b].text == "{":
+            e = match_close(toks, b) + 1
+            body = (b, e)
+            n = next_sig(toks, e)
+            if n < bc and toks[n].text == ",":
+                e = n + 1
+        else:
+            d = 0
+            e = b
+            while e < bc:
+                tk = toks[e]
+                if tk.kind == "p":
+                    if tk.text in OPEN:
+                        d += 1
+                    elif tk.text in ")]}":
+                        d -= 1
+                    elif tk.text == "," and d == 0:
+                        break
+                e += 1
+            body = (b, e)
+            if e < bc and toks[e].text == ",":
+                e += 1
+        arms.append({"pat": pat, "guard": guard, "body": body, "start": a, "end": e})
+        i = next_sig(toks, e)
+    return arms
+
+
+def _alts(toks, a, b):
+    """top-level `|` alternatives of the pattern toks[a:b] as text"""
+    parts = []
+    d = 0
+    cur = a
+    for k in range(a, b):
+        tk = toks[k]
+        if tk.kind == "p":
+            if tk.text in OPEN:
+                d += 1
+            elif tk.text in ")]}":
+                d -= 1
+            elif tk.text == "|" and d == 0:
+                parts.append(text(toks[cur:k]).strip()); cur = k + 1
+    parts.append(text(toks[cur:b]).strip())
+    return parts
+
+
+def rw_split_or_guard(toks, counts):
+    """R17: `P1 | P2 if G => B`  ->  `P1 if G => B, P2 if G => B` (an arm with both an or-pattern and a guard;
+    the alternatives bind nothing, so B is duplicated verbatim and the order of tests is unchanged)."""
+    n = 0
+    while True:
+        hit = None
+        for bo, bc in _match_bodies(toks):
+            for arm in _arms(toks, bo, bc):
+                if arm["guard"] is None:
+                    continue
+                alts = _alts(toks, *arm["pat"])
+                if len(alts) < 2:
+                    continue
+                g = text(toks[arm["guard"][0]:arm["guard"][1]]).strip()
+                b = text(toks[arm["body"][0]:arm["body"][1]]).strip()
+                if not b.startswith("{"):
+                    b = "{ " + b + " }"
+                new = "\n".join("%s if %s => %s" % (p, g, b) for p in alts) + "\n"
+                hit = (arm["start"], arm["end"], new)
+                break
+            if hit:
+                break
+        if not hit:
+            break
+        s, e, new = hit
+        toks = toks[:s] + relex(new) + toks[e:]
+        n += 1
+    # (nothing to split is not an error: the construct this rule removes is simply absent)
+    _count(counts, "R17", n)
+    return toks
+
+
+def rw_merge_guarded_twin(toks, counts):
+    """R17b: two consecutive arms with the same pattern, the first guarded, the second not
+            P if G => B1, P => B2     ->     P => { if G { B1 } else { B2 } }
+    (needed where P binds by mutable reference: Verus rejects a guard on such an arm). The guard is still
+    evaluated first and exactly one of B1, B2 runs."""
+    n = 0
+    while True:
+        hit = None
+        for bo, bc in _match_bodies(toks):
+            arms = _arms(toks, bo, bc)
+            for x in range(len(arms) - 1):
+                a1, a2 = arms[x], arms[x + 1]
+                if a1["guard"] is None or a2["guard"] is not None:
+                    continue
+                p1 = " ".join(t.text for t in toks[a1["pat"][0]:a1["pat"][1]] if is_sig(t))
+                p2 = " ".join(t.text for t in toks[a2["pat"][0]:a2["pat"][1]] if is_sig(t))
+                if p1 != p2:
+                    continue
+                g = text(toks[a1["guard"][0]:a1["guard"][1]]).strip()
+                b1 = text(toks[a1["body"][0]:a1["body"][1]]).strip()
+                b2 = text(toks[a2["body"][0]:a2["body"][1]]).strip()
+                if not b1.startswith("{"):
+                    b1 = "{ " + b1 + " }"
+                if not b2.startswith("{"):
+                    b2 = "{ " + b2 + " }"
+                new = "%s => { if %s %s else %s }\n" % (text(toks[a1["pat"][0]:a1["pat"][1]]).strip(), g, b1, b2)
+                hit = (a1["start"], a2["end"], new)
+                break
+            if hit:
+                break
+        if not hit:
+            break
+        s, e, new = hit
+        toks = toks[:s] + relex(new) + toks[e:]
+        n += 1
+    # (nothing to merge is not an error)
+    _count(counts, "R17", n)
+    return toks
